@@ -4,7 +4,7 @@
      content/limitedstorage.go LimitedStorage.Push
      internal/cas/memory.go   Memory.Push / Exists / Fetch
      content/oci/storage.go   Storage.Push (stat, ingest temp, verify, rename)
-     content/file/file.go     Store.push / pushFile / saveFile (named) and the fallback
+     content/file/file.go     Store.push / pushFile / saveFile (named; a failed push removes its file) and the fallback
    together with the pieces of the Go standard library they are built from
    (io.LimitedReader, io.TeeReader, io.ReadFull = io.ReadAtLeast, io.CopyBuffer).
 
@@ -328,8 +328,8 @@ Section WithH.
     else (None, match oci_get s (d_dg d) with Some _ => true | None => false end).
 
   (* ---------------------------------------------------------------- file.Store *)
-  (* f_files: what is on disk under each name (a failed push leaves its partial
-     file behind); f_names: nameStatus.exists; f_d2p: digestToPath; f_fb: fallback *)
+  (* f_files: what is on disk under each name (a failed push removes its partial
+     file); f_names: nameStatus.exists; f_d2p: digestToPath; f_fb: fallback *)
   Record fstore := mkFs { f_files : list (str * str); f_names : list str;
                           f_d2p : list (str * str); f_fb : mem }.
 
@@ -344,6 +344,9 @@ Section WithH.
   Definition assoc_set (l : list (str * str)) (k v : str) : list (str * str) :=
     (k, v) :: filter (fun p => negb (str_eqb (fst p) k)) l.
 
+  Definition assoc_del (l : list (str * str)) (k : str) : list (str * str) :=
+    filter (fun p => negb (str_eqb (fst p) k)) l.
+
   Definition file_bufsz : nat := 32768.
 
   Definition file_push (fuel : nat) (s : fstore) (name : str) (d : desc) (evs : list ev)
@@ -357,7 +360,9 @@ Section WithH.
         else
           match copy_buffer fuel (mkBase evs None) file_bufsz (d_dg d) (d_sz d) with
           | ((Some e, out), _) =>
-              (Some e, mkFs (assoc_set (f_files s) name out) (f_names s) (f_d2p s) (f_fb s))
+              (* pushFile removes the partially written file again (os.Create truncated
+                 whatever was there) *)
+              (Some e, mkFs (assoc_del (f_files s) name) (f_names s) (f_d2p s) (f_fb s))
           | ((None, out), _) =>
               (None, mkFs (assoc_set (f_files s) name out) (name :: f_names s)
                           (assoc_set (f_d2p s) (d_dg d) name) (f_fb s))
